@@ -24,7 +24,23 @@
      freed while a guard is pinned, so there is no ABA);
    * [ser = true] is the tree with the repair: Rib::withdraw_for_ingress
      holds a mutex of the Rib for the whole call; [ser = false] is the code
-     as it was. The store's loop is the same in both. *)
+     as it was. The store's loop is the same in both;
+   * Rib::withdraw_for_ingress(id, Some(family)) has an arm for four address
+     families (IPv4/IPv6 unicast/multicast); for any other AfiSafiType it
+     reaches `afisafi => panic!("no support to withdraw {:?} yet", afisafi)` -
+     AFTER it has taken the mutex. Nothing is marked; the guard is dropped
+     while the thread unwinds, so the mutex is released and POISONED; the
+     panic is the outcome of that one call (process_update does not catch it:
+     in rotonda the publisher's task ends there, i.e. the rest of that
+     thread's program is not run - a shorter program; the correspondence
+     engine catches it per Update and goes on). [AUnsup], [LPanic], [c_poison],
+     [c_panics];
+   * the mutex is taken with
+       .lock().unwrap_or_else(|poisoned| poisoned.into_inner())
+     i.e. a poisoned mutex is acquired like a healthy one (the () it guards
+     has no invariant to protect): [step] never reads [c_poison]. What
+     `.lock().unwrap()` would do instead is [step_strict] (a counterfactual,
+     for the refutation Props_C09.C09_unwrap_on_poison_refuted only). *)
 From stdpp Require Import gmap.
 From Coq Require Import NArith.
 From RV Require Import Rib.RibModel.
@@ -32,15 +48,22 @@ From RV Require Import Rib.RibModel.
 (* one store-level action of a writer *)
 Inductive act :=
 | AIns (p : payload)               (* Rib::insert_prefix: store.insert / mark_mui_as_withdrawn_for_prefix *)
-| AMark (fs : list N) (m : N).     (* Rib::withdraw_for_ingress(m, ..): mark m in the bitmaps of families fs, in this order *)
+| AMark (fs : list N) (m : N)      (* Rib::withdraw_for_ingress(m, ..): mark m in the bitmaps of families fs, in this order *)
+| AUnsup (m : N) (f : N).          (* Rib::withdraw_for_ingress(m, Some f), f none of the four families: lock, then panic! *)
 
 Definition fams_of (fo : option N) : list N :=
   match fo with Some f => [f] | None => all_fams end.
 
+(* the families withdraw_for_ingress has an arm for: 0..3 (RibModel) *)
+Definition fam_supported (f : N) : bool := (f <? 4)%N.
+(* the family of a request that ends in the panic! arm *)
+Definition unsupported (fo : option N) : option N :=
+  match fo with Some f => if fam_supported f then None else Some f | None => None end.
+
 Definition acts_of_update (u : update) : list act :=
   match u with
   | UBulk ps => map AIns ps
-  | UWithdraw m fo => [AMark (fams_of fo) m]
+  | UWithdraw m fo => match unsupported fo with Some f => [AUnsup m f] | None => [AMark (fams_of fo) m] end
   | UWithdrawBulk ms => map (AMark all_fams) ms
   | UPass => []
   end.
@@ -50,8 +73,14 @@ Definition acts_of_prog (p : list update) : list act := flat_map acts_of_update 
 Inductive lst :=
 | LIdle                                                    (* between two store-level actions *)
 | LMark (fs : list N) (m : N)                              (* inside withdraw_for_ingress; bitmaps fs still to do *)
-| LCas (fs : list N) (m : N) (f : N) (st : N) (new : gset (N * N)).
+| LCas (fs : list N) (m : N) (f : N) (st : N) (new : gset (N * N))
     (* inside the store's loop for bitmap f: `current` has stamp st, `new` is the value the next CAS tries to install *)
+| LPanic (m : N) (f : N).                                  (* inside withdraw_for_ingress (guard held), at the panic! arm *)
+
+(* a call that ended in a panic instead of returning *)
+Inductive pan :=
+| PUnsup (m : N) (f : N)      (* panic!("no support to withdraw {:?} yet") of withdraw_for_ingress(m, Some f) *)
+| PPoison (m : N).            (* PoisonError unwrapped by withdraw_for_ingress(m, ..): ONLY in [step_strict], never in [step] *)
 
 Record thr := MkThr { t_todo : list act; t_loc : lst }.
 
@@ -60,7 +89,9 @@ Record cst := MkC {
   c_stamps : gmap N N;         (* per bitmap: identity of the current heap object *)
   c_lock : option nat;         (* the repair's mutex: who is inside withdraw_for_ingress *)
   c_thr : list thr;
-  c_fail : N }.                (* failed compare-and-swap attempts so far *)
+  c_fail : N;                  (* failed compare-and-swap attempts so far *)
+  c_poison : bool;             (* the poison flag of the mutex (std::sync::Mutex: set when a guard is dropped during a panic, never cleared) *)
+  c_panics : list (nat * pan) }. (* calls that panicked so far, oldest first: (thread, what) *)
 
 Definition stamp (c : cst) (f : N) : N := default 0%N (c_stamps c !! f).
 
@@ -79,40 +110,54 @@ Definition step (ser : bool) (c : cst) (t : nat) : cst :=
       | [] => c
       | AIns p :: rest =>
           MkC (rib_insert_payload (c_rib c) p) (c_stamps c) (c_lock c)
-              (<[t := MkThr rest LIdle]> (c_thr c)) (c_fail c)
+              (<[t := MkThr rest LIdle]> (c_thr c)) (c_fail c) (c_poison c) (c_panics c)
       | AMark fs m :: rest =>
           if ser then
             match c_lock c with
             | Some _ => c                                   (* blocked on the mutex *)
-            | None => MkC (c_rib c) (c_stamps c) (Some t)
-                          (<[t := MkThr rest (LMark fs m)]> (c_thr c)) (c_fail c)
+            | None => MkC (c_rib c) (c_stamps c) (Some t)   (* poisoned or not: unwrap_or_else(into_inner) *)
+                          (<[t := MkThr rest (LMark fs m)]> (c_thr c)) (c_fail c) (c_poison c) (c_panics c)
             end
           else MkC (c_rib c) (c_stamps c) (c_lock c)
-                   (<[t := MkThr rest (LMark fs m)]> (c_thr c)) (c_fail c)
+                   (<[t := MkThr rest (LMark fs m)]> (c_thr c)) (c_fail c) (c_poison c) (c_panics c)
+      | AUnsup m f :: rest =>                               (* the same entry: the mutex comes before the match *)
+          if ser then
+            match c_lock c with
+            | Some _ => c
+            | None => MkC (c_rib c) (c_stamps c) (Some t)
+                          (<[t := MkThr rest (LPanic m f)]> (c_thr c)) (c_fail c) (c_poison c) (c_panics c)
+            end
+          else MkC (c_rib c) (c_stamps c) (c_lock c)
+                   (<[t := MkThr rest (LPanic m f)]> (c_thr c)) (c_fail c) (c_poison c) (c_panics c)
       end
     | LMark [] m =>                                         (* withdraw_for_ingress returns (the guard is dropped) *)
         MkC (c_rib c) (c_stamps c) (if ser then None else c_lock c)
-            (<[t := MkThr (t_todo th) LIdle]> (c_thr c)) (c_fail c)
+            (<[t := MkThr (t_todo th) LIdle]> (c_thr c)) (c_fail c) (c_poison c) (c_panics c)
     | LMark (f :: fs) m =>                                  (* current = load(); new = clone + id *)
         MkC (c_rib c) (c_stamps c) (c_lock c)
             (<[t := MkThr (t_todo th) (LCas fs m f (stamp c f) ({[ (f, m) ]} ∪ wdm (c_rib c)))]> (c_thr c))
-            (c_fail c)
+            (c_fail c) (c_poison c) (c_panics c)
     | LCas fs m f st new =>
         if bool_decide (stamp c f = st) then                (* CAS succeeds: bitmap f := new *)
           MkC (MkRib (recs (c_rib c)) (fam_part f new ∪ fam_rest f (wdm (c_rib c))))
               (<[f := (st + 1)%N]> (c_stamps c)) (c_lock c)
-              (<[t := MkThr (t_todo th) (LMark fs m)]> (c_thr c)) (c_fail c)
+              (<[t := MkThr (t_todo th) (LMark fs m)]> (c_thr c)) (c_fail c) (c_poison c) (c_panics c)
         else                                                (* CAS fails: new = clone(updated); current stays *)
           MkC (c_rib c) (c_stamps c) (c_lock c)
               (<[t := MkThr (t_todo th) (LCas fs m f st (wdm (c_rib c)))]> (c_thr c))
-              (c_fail c + 1)%N
+              (c_fail c + 1)%N (c_poison c) (c_panics c)
+    | LPanic m f =>                                         (* panic!: nothing marked; unwinding drops the guard: *)
+        MkC (c_rib c) (c_stamps c) (if ser then None else c_lock c)      (* the mutex is released ... *)
+            (<[t := MkThr (t_todo th) LIdle]> (c_thr c)) (c_fail c)
+            (if ser then true else c_poison c)                           (* ... and poisoned; *)
+            (c_panics c ++ [(t, PUnsup m f)])                            (* the call is over, its outcome is the panic *)
     end
   end.
 
 Definition run (ser : bool) (c : cst) (s : list nat) : cst := fold_left (step ser) s c.
 
 Definition init (progs : list (list update)) : cst :=
-  MkC rib_empty ∅ None (map (fun p => MkThr (acts_of_prog p) LIdle) progs) 0%N.
+  MkC rib_empty ∅ None (map (fun p => MkThr (acts_of_prog p) LIdle) progs) 0%N false [].
 
 Definition thr_done (th : thr) : bool :=
   match t_todo th, t_loc th with [], LIdle => true | _, _ => false end.
@@ -128,6 +173,7 @@ Definition enabled (c : cst) (t : nat) : bool :=
     match t_loc th, t_todo th with
     | LIdle, [] => false
     | LIdle, AMark _ _ :: _ => match c_lock c with None => true | Some _ => false end
+    | LIdle, AUnsup _ _ :: _ => match c_lock c with None => true | Some _ => false end
     | _, _ => true
     end
   end.
@@ -136,9 +182,9 @@ Fixpoint nsum (l : list nat) : nat := match l with [] => 0 | x :: l' => x + nsum
 
 (* number of steps an action / a thread / the system still needs (serialised code) *)
 Definition act_cost (a : act) : nat :=
-  match a with AIns _ => 1 | AMark fs _ => 2 + 2 * length fs end.
+  match a with AIns _ => 1 | AMark fs _ => 2 + 2 * length fs | AUnsup _ _ => 2 end.
 Definition loc_cost (l : lst) : nat :=
-  match l with LIdle => 0 | LMark fs _ => 1 + 2 * length fs | LCas fs _ _ _ _ => 2 + 2 * length fs end.
+  match l with LIdle => 0 | LMark fs _ => 1 + 2 * length fs | LCas fs _ _ _ _ => 2 + 2 * length fs | LPanic _ _ => 1 end.
 Definition thr_work (th : thr) : nat := loc_cost (t_loc th) + nsum (map act_cost (t_todo th)).
 Definition work (c : cst) : nat := nsum (map thr_work (c_thr c)).
 Definition upd_cost (u : update) : nat := nsum (map act_cost (acts_of_update u)).
@@ -165,9 +211,29 @@ Definition disjoint_ids (progs : list (list update)) : Prop :=
   forall i j pi pj m, progs !! i = Some pi -> progs !! j = Some pj ->
     In m (prog_muis pi) -> In m (prog_muis pj) -> i = j.
 
-(* a session-wide withdrawal of id m (families fo) is part of program p *)
+(* a session-wide withdrawal of id m (families fo: all, or one of the four) is part of program p *)
 Definition withdraws (p : list update) (m : N) (fo : option N) : Prop :=
-  In (UWithdraw m fo) p \/ (fo = None /\ exists ms, In (UWithdrawBulk ms) p /\ In m ms).
+  (In (UWithdraw m fo) p /\ unsupported fo = None) \/ (fo = None /\ exists ms, In (UWithdrawBulk ms) p /\ In m ms).
+
+(* ---- what an Update does to the RIB / which of its calls panic ---- *)
+(* a withdrawal for a family the RIB has no arm for changes nothing *)
+Definition eff_update (u : update) : update :=
+  match u with
+  | UWithdraw m fo => match unsupported fo with Some _ => UPass | None => u end
+  | _ => u
+  end.
+Definition effective (p : list update) : list update := map eff_update p.
+Definition upd_pans (u : update) : list pan :=
+  match u with
+  | UWithdraw m fo => match unsupported fo with Some f => [PUnsup m f] | None => [] end
+  | _ => []
+  end.
+(* the panics of thread t in a log *)
+Fixpoint pans_of (t : nat) (l : list (nat * pan)) : list pan :=
+  match l with
+  | [] => []
+  | (t', x) :: l' => if Nat.eqb t' t then x :: pans_of t l' else pans_of t l'
+  end.
 
 (* ---- the smallest contended scenario: two sessions lost at the same time ---- *)
 Definition livelock_progs : list (list update) := [[UWithdraw 1%N None]; [UWithdraw 2%N None]].
@@ -188,3 +254,31 @@ Definition disjoint_idsb (progs : list (list update)) : bool :=
       forallb (fun m => negb (existsb (N.eqb m) (prog_muis (default [] (progs !! j)))))
               (prog_muis (default [] (progs !! i))))
     (seq 0 (length progs))) (seq 0 (length progs)).
+
+(* ---- COUNTERFACTUAL, not the code: the mutex taken with the usual idiom
+   `.lock().unwrap()`. On a poisoned mutex lock() waits for the mutex like any
+   other caller and then returns Err(PoisonError); unwrap panics before anything
+   is marked (the guard inside the error is dropped: released, still poisoned);
+   the call is over. Everything else is [step true]. ---- *)
+Definition step_strict (c : cst) (t : nat) : cst :=
+  match c_thr c !! t with
+  | None => c
+  | Some th =>
+    match t_loc th, t_todo th, c_lock c, c_poison c with
+    | LIdle, AMark _ m :: rest, None, true
+    | LIdle, AUnsup m _ :: rest, None, true =>
+        MkC (c_rib c) (c_stamps c) None (<[t := MkThr rest LIdle]> (c_thr c)) (c_fail c) true
+            (c_panics c ++ [(t, PPoison m)])
+    | _, _, _, _ => step true c t
+    end
+  end.
+Definition run_strict (c : cst) (s : list nat) : cst := fold_left step_strict s c.
+
+(* ---- one session asks for a family the RIB cannot withdraw (9: IPv4 FlowSpec in
+   the engines' numbering), later two other sessions go down ---- *)
+Definition poison_progs : list (list update) :=
+  [ [UBulk [MkPay (ex_key 0 7 1) true 5]; UWithdraw 1 (Some 9)]
+  ; [UBulk [MkPay (ex_key 0 7 2) true 3]; UWithdraw 2 None]
+  ; [UBulk [MkPay (ex_key 1 7 3) true 4; MkPay (ex_key 2 8 3) true 4]; UWithdrawBulk [3]] ]%N.
+(* session 1 first (its route, the lock, the panic), then the other two, interleaved *)
+Definition poison_sched : list nat := [0; 0; 0] ++ concat (repeat [1; 2] 24).
